@@ -243,6 +243,12 @@ class SpecMixin:
         es = lty.args[0].sort()
         MEM = self.uf("MEM_" + str(es), [I, z3.ArraySort(I, es)], z3.ArraySort(es, B))
         WIT = self.uf("WIT_" + str(es), [I, z3.ArraySort(I, es), es], I)
+        self.mem_facts(n, e, es)
+        return MEM(n, e)
+
+    def mem_facts(self, n, e, es):
+        MEM = self.uf("MEM_" + str(es), [I, z3.ArraySort(I, es)], z3.ArraySort(es, B))
+        WIT = self.uf("WIT_" + str(es), [I, z3.ArraySort(I, es), es], I)
         m = MEM(n, e)
         key = ("mem", n.get_id(), e.get_id())
         if key not in self._memfacts:
@@ -252,13 +258,22 @@ class SpecMixin:
             self.facts.append(z3.ForAll([j], z3.Implies(z3.And(0 <= j, j < n), m[e[j]]), patterns=[e[j]]))
             self.facts.append(z3.ForAll([x], z3.Implies(m[x], z3.And(0 <= WIT(n, e, x), WIT(n, e, x) < n,
                                                                      e[WIT(n, e, x)] == x)), patterns=[m[x]]))
-        return m
 
     def spec_in_list(self, node, st, ctx):
         x = self.ev(node.args[0], st, ctx)
         l = self.ev(node.args[1], st, ctx)
         xv = self.coerce(x, l.ty.args[0], st)
         return mk_bool(self.list_mem(st, l.ty, l.t)[xv.t])
+
+    def spec_index_in(self, node, st, ctx):
+        """index_in(x, L): an index at which x occurs in L (meaningful when in_list(x, L))"""
+        x = self.ev(node.args[0], st, ctx)
+        l = self.ev(node.args[1], st, ctx)
+        xv = self.coerce(x, l.ty.args[0], st)
+        self.list_mem(st, l.ty, l.t)
+        es = l.ty.args[0].sort()
+        WIT = self.uf("WIT_" + str(es), [I, z3.ArraySort(I, es), es], I)
+        return mk_int(WIT(st.list_len(l.ty, l.t), st.list_elems(l.ty, l.t), xv.t))
 
     def spec_distinct_rows(self, node, st, ctx):
         l = self.ev(node.args[0], st, ctx)
@@ -373,11 +388,18 @@ class SpecMixin:
                 bound["self"] = selfsv
         elif selfsv is not None and not is_static and "self" in names:
             bound["self"] = selfsv
-        if any(isinstance(x, ast.Starred) for x in node.args):
-            raise Unsupported("star-args call")
         argv = []
+        if fn is not None and fn.args.vararg is not None:
+            pos = [n for n in c.params if n != "self"]  # variadic callee: the contract fixes the arity
+            names = list(pos) + [n for n in names if n not in pos]
         for i, x in enumerate(node.args):
-            pty = c.params.get(pos[i]) if i < len(pos) else None
+            if isinstance(x, ast.Starred):
+                tv = self.ev(x.value, st, ctx)
+                if tv.ty.kind != "tuple":
+                    raise Unsupported("star-args with a non-tuple value")
+                argv.extend(tv.items)
+                continue
+            pty = c.params.get(pos[len(argv)]) if len(argv) < len(pos) else None
             argv.append(self.ev_hinted(x, pty, st, ctx))
         if len(argv) > len(pos):
             raise Unsupported("too many positional arguments for %s" % c.qualname)
@@ -541,7 +563,8 @@ class SpecMixin:
         # 4. exceptional exits
         pre_cs = self.callee_state(pre, params)
         for cls, cond in c.raises.items():
-            cz = self.ev_spec(cond, pre_cs, old=pre_cs) if cond else z3.BoolVal(True)
+            # no condition given: the callee may or may not raise (nondeterministic outcome)
+            cz = self.ev_spec(cond, pre_cs, old=pre_cs) if cond else z3.Bool(fresh_name("raises_" + cls))
             es = self.callee_state(st, params)
             for e in c.ensures_exc.get(cls, []):
                 cz = z3.And(cz, self.ev_spec(e, es, old=pre_cs))
